@@ -69,7 +69,19 @@ impl Command for SubRunCmd {
 fn gen_prog(t: &mut Tape, st: &mut Stats) -> Prog {
     match t.weighted(&[3, 3, 2, 2]) {
         0 => {
-            let text = c03::program_text(t, st, 30);
+            let mut text = c03::program_text(t, st, 30);
+            // sometimes with lines that only name an output variable (`x =` clears x): instructions like any other,
+            // they must not run once the flag is up
+            if t.chance(1, 3) {
+                let mut lines: Vec<String> = text.lines().map(|l| l.to_string()).collect();
+                for _ in 0..1 + t.below(3) {
+                    let at = t.below(lines.len() + 1);
+                    lines.insert(at, format!("{} =", t.pick(&["x", "y", "z", "r"])));
+                }
+                text = lines.join("\n");
+                text.push('\n');
+                st.class("program-with-output-only-lines");
+            }
             Prog { text, kind: Kind::Scripted, on_error: t.flip(), subs: vec![] }
         }
         3 => {
@@ -398,7 +410,7 @@ pub fn property() -> Property {
                     Tier::Thorough => Plan::Random { cases: 600_000, max_len: 800 },
                 },
                 case: case_internal,
-                min_classes: &[("halt-during-jumping-command", 1000), ("halt-during-failing-command", 500), ("halt-during-loop-condition-or-assignment", 1000), ("non-terminating-program", 1000), ("flag-only-reachable-through-env", 5000), ("halt-raised-inside-nested-run", 1000), ("flag-raised-before-the-first-instruction", 3000)],
+                min_classes: &[("halt-during-jumping-command", 1000), ("halt-during-failing-command", 500), ("halt-during-loop-condition-or-assignment", 1000), ("non-terminating-program", 1000), ("flag-only-reachable-through-env", 5000), ("halt-raised-inside-nested-run", 1000), ("flag-raised-before-the-first-instruction", 3000), ("program-with-output-only-lines", 2000)],
             },
             Section {
                 name: "thread",
